@@ -238,6 +238,21 @@ pub fn get(name: &str) -> Option<Profile> {
             forgets: 1, prunes: 2, queue_events: 4, drain: false,
             ..base(name)
         },
+        // journal-centred: ONE open job fed by several graph submits whose tasks depend on tasks of EARLIER submits (restore_job
+        // re-creates one batch per Submit record: a dependency that crosses batches has to survive the restart as long as its
+        // target is still pending), chains of three submits, a refused submit (unknown dependency), a closed job next to it
+        "jopen" => Profile {
+            submits: vec![
+                SubmitSpec { into_open: true, ..graph(vec![g(10, &[], 0, 0), g(11, &[10], 0, 0)]) },
+                SubmitSpec { into_open: true, ..graph(vec![g(20, &[10], 0, 0), g(21, &[11, 20], 0, 0)]) },
+                SubmitSpec { into_open: true, ..graph(vec![g(30, &[20], 0, 1)]) },
+                SubmitSpec { into_open: true, ..graph(vec![g(40, &[10, 41], 0, 0)]) },
+                SubmitSpec { into_open: true, ..graph(vec![g(50, &[11], 1, 0), g(51, &[50, 10], 0, 0)]) },
+                arr(&[1, 2], 0, 0),
+            ],
+            max_submits: 5, opens: 1, losses: 1, cancels: 1, fails: 1, max_connects: 1, prunes: 1, drain: false,
+            ..base(name)
+        },
         "jloss" => Profile {
             submits: vec![
                 SubmitSpec { crash_limit: 2, ..arr(&[1, 2, 3], 0, 0) },
@@ -263,4 +278,4 @@ pub fn get(name: &str) -> Option<Profile> {
     Some(p)
 }
 
-pub const ALL: &[&str] = &["jmixed", "jloss", "jmn", "happy", "mixed", "retract", "cancel", "loss", "maxfails", "open", "stream", "mn", "time", "variants", "timeretract", "retract2", "variants2", "bigbody"];
+pub const ALL: &[&str] = &["jmixed", "jopen", "jloss", "jmn", "happy", "mixed", "retract", "cancel", "loss", "maxfails", "open", "stream", "mn", "time", "variants", "timeretract", "retract2", "variants2", "bigbody"];
